@@ -65,6 +65,9 @@ class LogRun(object):
         self.fine_clock = False
         self.nclock = 0
 
+    def peer_dir(self):
+        return os.path.basename(os.path.dirname(self.msgdir))
+
     # ------------------------------------------------------------ actions
     def restart(self):
         self.h = None
@@ -217,6 +220,12 @@ def replay_walk(g, walk, tid, frac):
         W.now = 0.0
         r = LogRun(root)
         r.huge = (tid % 4 == 1)
+        # the state a first start leaves when it is killed inside its directory set-up: the directory of the peer exists,
+        # without (every sixth history) or with an empty (every sixth) msg/ directory
+        if tid % 6 == 3:
+            os.makedirs(os.path.join(root, r.peer_dir()))
+        elif tid % 6 == 5:
+            os.makedirs(os.path.join(root, r.peer_dir(), 'msg'))
         r.fine_clock = (tid % 5 == 2)
         if r.fine_clock:
             W.now = 0.5
